@@ -27,12 +27,11 @@ func BuildEndpointPolicyTree(
 			return nil, err
 		}
 		var endpointPolicy *map[urltree.Method]EndpointPolicy
-		existingEndpointPolicy := endpointPolicyTree.Lookup(endpoint.URL)
-		// Merge only into the node of this very URL: a lookup may also return a
-		// less specific endpoint (e.g. a wildcard) that merely matches the URL.
-		if existingEndpointPolicy.Value != nil &&
-			existingEndpointPolicy.NormalizedURL == endpoint.URL {
-			existingPolicy := *existingEndpointPolicy.Value
+		// Merge only into the node of this very URL: a lookup by matching may also
+		// return a less specific endpoint (a wildcard or a parameter) that merely
+		// accepts the URL.
+		if existingEndpointPolicy, found := endpointPolicyTree.LookupDeclaredURL(endpoint.URL); found {
+			existingPolicy := *existingEndpointPolicy
 			existingPolicy[urltree.Method(endpoint.Method)] = EndpointPolicy{
 				URL:       endpoint.URL,
 				Remedies:  endpoint.Remedies,
